@@ -20,13 +20,13 @@ package cryptoutil
 //@   for C01, C05, C14
 //@   safety
 //@   ensures [C01.nonce.array] ret1 == nil ==> ret0 != nil && fresh(ret0) && len(nonceSlice) == 24 && bytes(ret0) == bytes(nonceSlice)
-//@   ensures len(nonceSlice) != 24 ==> ret1 != nil
+//@   ensures [C01.nonce.array.total] (len(nonceSlice) != 24) <==> (ret1 != nil)
 
 //@ func KeySliceToArray
 //@   for C01, C02, C14
 //@   safety
 //@   ensures [C01.key.array] ret1 == nil ==> ret0 != nil && fresh(ret0) && len(keySlice) == 32 && bytes(ret0) == bytes(keySlice)
-//@   ensures len(keySlice) != 32 ==> ret1 != nil
+//@   ensures [C01.key.array.total] (len(keySlice) != 32) <==> (ret1 != nil)
 
 //@ func EdwardsToMontgomeryPub
 //@   for C05, C06, C11
